@@ -1048,6 +1048,14 @@ func (x *FnExec) binop(fr *Frame, v *ssa.BinOp, st *State, g *Term) Value {
 	tc := x.tc
 	a, b := fr.val(v.X), fr.val(v.Y)
 	t := v.X.Type()
+	if bt := basicOf(t); bt != nil && bt.Info()&types.IsFloat != 0 {
+		// floating point is opaque: comparisons may go either way (NaN, -0), arithmetic yields any value
+		switch v.Op {
+		case token.EQL, token.NEQ, token.LSS, token.LEQ, token.GTR, token.GEQ:
+			return tc.Fresh("fcmp", SBool)
+		}
+		return tc.Fresh("fop", "Real")
+	}
 	switch v.Op {
 	case token.EQL, token.NEQ:
 		var eq *Term
@@ -1082,7 +1090,8 @@ func (x *FnExec) binop(fr *Frame, v *ssa.BinOp, st *State, g *Term) Value {
 		return r
 	}
 	if bt := basicOf(t); bt != nil && bt.Info()&types.IsFloat != 0 {
-		unsupp("floating point")
+		// floating point is opaque: any result (float operations never panic)
+		return tc.Fresh("fop", "Real")
 	}
 	at, bt2 := a.(*Term), b.(*Term)
 	if v.Op == token.QUO || v.Op == token.REM {
@@ -1227,7 +1236,8 @@ func (x *FnExec) convert(fr *Frame, v *ssa.Convert, st *State, g *Term) Value {
 			return x.stringToBytes(st, a.(*Term))
 		}
 	case fb != nil && tb != nil && (fb.Info()&types.IsFloat != 0 || tb.Info()&types.IsFloat != 0):
-		unsupp("float conversion")
+		// opaque: any value of the target type
+		return x.freshVal("fconv", to)
 	case fb != nil && fb.Kind() == types.UnsafePointer || tb != nil && tb.Kind() == types.UnsafePointer:
 		unsupp("unsafe.Pointer conversion")
 	}
